@@ -172,3 +172,28 @@ Definition view_map (kind : nat) (params : list (list nat)) (srcs : list (bool *
       | _, _ => None
       end
   end.
+
+(* ---- the QUERY side of a derivative set (src/differentiation.rs `Derivatives::at` / `Index` /
+   `Vec::from`, container_record/mod.rs `at_tensor_index` / `at_matrix_index` / `at_tensor` /
+   `at_matrix`): a derivative set is the vector d with one entry per tape entry; every query form
+   reads d at the tape position of a record.  The whole-container forms are
+   `input.numbers.map(|(_, i)| self.derivatives[i].clone())`: the map of the one-record query over
+   the container's elements in the order of the container's OWN (view) indexing. *)
+Section Queries.
+Context {R : Type} (zero : R).
+
+(* Derivatives::at(&record) = derivatives[record.index] (also Index<&Record>, Vec::from(d)[i]) *)
+Definition at_record (d : list R) (i : nat) : R := nth i d zero.
+
+(* Derivatives::at_tensor_index(idx, &c) / at_matrix_index(r, c, &c): the element at row-major
+   position k of the container (None outside the shape), then its tape position *)
+Definition at_container_index (d : list R) (c : cont R) (k : nat) : option R :=
+  match nth_error (c_data c) k with
+  | Some p => Some (at_record d (snd p))
+  | None => None
+  end.
+
+(* Derivatives::at_tensor(&c) / at_matrix(&c) *)
+Definition at_container (d : list R) (c : cont R) : list R :=
+  map (fun p => at_record d (snd p)) (c_data c).
+End Queries.
